@@ -464,6 +464,50 @@ func (e *eng) Op(f []string, line string, out *hx.Out) {
 		} else {
 			out.P("P:C11 old=%s%s", vopt(old, had), bad)
 		}
+	case (f[0] == "tins" || f[0] == "tmod" || f[0] == "tdel") && len(f) == 4:
+		// Tree.Insert / Tree.Modify / Tree.Delete on the head version: Txn() + one write + CommitAndNotify() inside
+		v, ok := e.versions[e.head]
+		if !ok || e.live != nil {
+			out.P("E badref")
+			return
+		}
+		e.pending = nil
+		e.serial++
+		t := &txnS{ref: v.ref.clone(), fromHead: true, serial: e.serial}
+		k := hx.UnHex(f[1])
+		val, _ := strconv.ParseUint(f[2], 10, 64)
+		refOld, refHad := t.ref[string(k)]
+		var old uint64
+		var had bool
+		var tree part.Tree[uint64]
+		switch f[0] {
+		case "tins":
+			old, had, tree = v.t.Insert(k, val)
+			t.ref[string(k)] = val
+			t.changes = append(t.changes, change{k})
+		case "tmod":
+			old, had, tree = v.t.Modify(k, val, modFun)
+			want := val
+			if refHad {
+				want = modFun(refOld, val)
+			}
+			t.ref[string(k)] = want
+			t.changes = append(t.changes, change{k})
+		default:
+			old, had, tree = v.t.Delete(k)
+			delete(t.ref, string(k))
+			if refHad {
+				t.changes = append(t.changes, change{k})
+			}
+		}
+		c11(had == refHad && (!had || old == refOld), "old-value")
+		c11(tree.Len() == len(t.ref), "len")
+		if got, found := func() (uint64, bool) { x, _, ok := tree.Get(k); return x, ok }(); found != (f[0] != "tdel") || (found && got != t.ref[string(k)]) {
+			c11(false, "one-shot-result")
+		}
+		e.addVersion(f[3], &version{t: tree, ref: t.ref.clone(), main: true})
+		e.head = f[3]
+		out.P("P:C11,C12 old=%s%s%s", vopt(old, had), bad, e.afterNotify(t))
 	case f[0] == "del" && len(f) == 2:
 		if e.live == nil {
 			out.P("E badref")
